@@ -54,7 +54,14 @@ func optionOwnLine(r *core.Run) {
 			}
 			own := false
 			if ix, isIx := core.Unparen(src).(*ast.IndexExpr); isIx {
-				if s, isSel := core.Unparen(ix.X).(*ast.SelectorExpr); isSel && s.Sel.Name == "Span" && strings.HasSuffix(core.TypeStr(info.TypeOf(s.X)), "descriptorpb.SourceCodeInfo_Location") {
+				base := core.Unparen(ix.X)
+				if id, isID := base.(*ast.Ident); isID {
+					// span := loc.Span; span[0]
+					if def := soleDefinition(info, id); def != nil {
+						base = core.Unparen(def)
+					}
+				}
+				if s, isSel := base.(*ast.SelectorExpr); isSel && s.Sel.Name == "Span" && strings.HasSuffix(core.TypeStr(info.TypeOf(s.X)), "descriptorpb.SourceCodeInfo_Location") {
 					if k, isConst := core.ConstInt(info, ix.Index); isConst && k == 0 {
 						own = true
 					}
